@@ -29,6 +29,7 @@ RECURSIVE StmtUses(_), StmtsUses(_, _)
 StmtUses(s) ==
   CASE s.k = "assign" -> {s.t.obj} \cup ExprNames(s.e) \cup PathNames(s.t.path)
     [] s.k = "bind" -> ExprNames(s.e)
+    [] s.k = "local" -> {s.n} \cup ExprNames(s.init)
     [] s.k = "if" -> (IF s.c.k \in {"true", "false"} THEN {} ELSE ExprNames(s.c)) \cup StmtsUses(s.th, 1) \cup StmtsUses(s.el, 1)
     [] s.k = "while" -> (IF s.c.k \in {"true", "false"} THEN {} ELSE ExprNames(s.c)) \cup StmtsUses(s.body, 1)
     [] s.k = "await" -> IF s.c.k \in {"true", "false"} THEN {} ELSE ExprNames(s.c)
@@ -70,6 +71,7 @@ TmpStmt(s, objs, defined, bound) ==
          LET a == TmpStmts(s.th, 1, objs, defined, bound)
              b == TmpStmts(s.el, 1, objs, defined, a.bound)
          IN [def |-> a.def \cap b.def, bound |-> b.bound, ok |-> TmpUse(CondNames(s.c), objs, defined) /\ a.ok /\ b.ok]
+    [] s.k = "local" -> [def |-> defined, bound |-> bound, ok |-> TmpUse(ExprNames(s.init), objs, defined)]
     [] s.k = "await" -> [def |-> {}, bound |-> bound, ok |-> TRUE]   \* the condition is evaluated in the polling state
     [] s.k = "waitfor" -> [def |-> {}, bound |-> bound, ok |-> TmpUse(IF s.n.k = "int" THEN {} ELSE ExprNames(s.n), objs, defined)]
     [] s.k = "while" ->
